@@ -20,7 +20,7 @@ use crate::sched::{OrderSpec, SchedSpec};
 /// tables the input asks for" cannot excuse anything.
 const LARGE_TABLE: isize = 10_000;
 
-const FAULT_KINDS: [&str; 23] = [
+const FAULT_KINDS: [&str; 26] = [
     "truncate",
     "bit_flip",
     "significant_byte",
@@ -36,6 +36,9 @@ const FAULT_KINDS: [&str; 23] = [
     "backend_garbage",
     "nesting_bomb",
     "insert_attribute",
+    "token_insert",
+    "token_replace",
+    "token_delete",
     "swap_type",
     "duplicate_item",
     "env_dir_named_like_module",
@@ -109,6 +112,14 @@ const HOSTILE_IDENTS: [&str; 22] = [
     "r#type", "r#fn", "r#struct", "r#self", "_", "__", "self", "Self", "crate", "super", "u32",
     "void", "vftable", "type", "unknown", "backend", "ñandú", "名前", "a1234567890123456789012345678901234567890123456789012345678901234567890123456789",
     "get", "_vfunc_0", "_field_0",
+];
+
+/// The vocabulary of the language, for grammar-directed token faults.
+const TOKENS: [&str; 48] = [
+    "<", ">", ">>", "<<", "::", ":", ";", ",", ".", "*", "&", "#", "!", "=", "->", "=>", "-", "_",
+    "(", ")", "[", "]", "{", "}", "const", "mut", "self", "fn", "type", "enum", "impl", "use",
+    "extern", "pub", "unknown", "vftable", "backend", "prologue", "epilogue", "super", "crate",
+    "0", "1", "\"s\"", "r#\"raw\"#", "Ident", "u32", "'a",
 ];
 
 const BROKEN_RUST: [&str; 14] = [
@@ -438,6 +449,44 @@ fn apply_byte_fault(rng: &mut Rng, kind: &str, files: &mut [(String, Vec<u8>)]) 
             }
             *bytes = text.into_bytes();
         }
+        "token_insert" | "token_replace" | "token_delete" => {
+            // Grammar-directed: whole tokens of the language's vocabulary at token boundaries,
+            // half of the time right after an identifier (where types, paths and names end).
+            let bounds = token_boundaries(bytes);
+            if bounds.len() < 3 {
+                return false;
+            }
+            for _ in 0..rng.range(1, 3) {
+                let bounds = token_boundaries(bytes);
+                let after_ident: Vec<usize> = (1..bounds.len())
+                    .filter(|&k| {
+                        let b = bounds[k];
+                        b > 0 && (bytes[b - 1].is_ascii_alphanumeric() || bytes[b - 1] == b'_')
+                    })
+                    .collect();
+                let k = if !after_ident.is_empty() && rng.chance(1, 2) {
+                    *rng.pick(&after_ident)
+                } else {
+                    rng.below(bounds.len() - 1)
+                };
+                let at = bounds[k];
+                let end = bounds[(k + 1).min(bounds.len() - 1)];
+                let tok = *rng.pick(&TOKENS);
+                match kind {
+                    "token_insert" => {
+                        let glue = if rng.chance(1, 2) { "" } else { " " };
+                        let text = format!("{glue}{tok}{glue}");
+                        bytes.splice(at..at, text.bytes());
+                    }
+                    "token_replace" => {
+                        bytes.splice(at..end, tok.bytes());
+                    }
+                    _ => {
+                        bytes.drain(at..end);
+                    }
+                }
+            }
+        }
         "insert_attribute" => {
             // A syntactically valid attribute in front of a random line: keeps the file
             // parsable most of the time and drives the semantic error paths.
@@ -696,7 +745,7 @@ pub fn generate(seed: u64, tier: Tier) -> Case {
     let asked_large = files.iter().any(|(_, b)| {
         std::str::from_utf8(b)
             .ok()
-            .and_then(|t| pyxis::parser::parse_str(t).ok())
+            .and_then(|t| crate::model::safe_parse(t).ok())
             .map(|m| asks_for_large_table(&m))
             .unwrap_or(false)
     });
@@ -753,7 +802,7 @@ fn parse_all(world: &World) -> Vec<(String, Result<grammar::Module, String>)> {
         .into_iter()
         .map(|(p, b)| {
             let r = match std::str::from_utf8(&b.0) {
-                Ok(t) => pyxis::parser::parse_str(t).map_err(|e| e.to_string()),
+                Ok(t) => crate::model::safe_parse(t),
                 Err(e) => Err(format!("utf8: {e}")),
             };
             (p.to_string(), r)
